@@ -483,6 +483,10 @@ func (c *Catalog) AddType(
 			depthWithInheritedProperties(&es.JSchema.ASTNode, coreUserTypes, map[string]struct{}{name: {}}) > maxSchemaDepth {
 			return d.KeywordError(jerr.SchemaIsTooDeep)
 		}
+		if _, err := es.Example(); err != nil {
+			// Such a schema cannot be serialized.
+			return d.KeywordError(err.Error())
+		}
 		es.catalogUserTypes = c.UserTypes
 		userType.Schema = es
 	case notation.SchemaNotationRegex:
